@@ -266,6 +266,41 @@ def name_cases(ctx):
                 ctx.violation("C16:name-collision-raise-mapped", f"after completing the circuit the named pins report {a1:.4f}, {a2:.4f} (arms confused)", rep)
         except Exception as e:  # noqa
             ctx.violation("C16:name-collision-raise-mapped", f"completing the circuit after the rejected call raised {type(e).__name__}: {str(e)[:60]}", rep)
+    # 3c. connections given to the constructor: a set that connects a pin twice, or a structure to itself, is rejected and leaves
+    #     the structures as they were - the same structures can then be wired correctly and solved
+    for variant in ("pin-twice", "self", "pin-twice-late"):
+        ctx.case(("ctor-rejection", variant), tags=["stream:constructor"])
+        rep = {"kind": "names", "case": "3c", "variant": variant}
+        try:
+            P = L.Pin
+            sts = [L.Structure(model=L.Model(pin_dic={P("p"): 0, P("q"): 1}, Smatrix=np.array([[0, t], [t, 0]], complex))) for t in (0.5, 0.25, 0.125)]
+            a, b, c = sts
+            before = [(dict(x.conn_dict), list(x.connected_to)) for x in sts]
+            if variant == "pin-twice":
+                bad = {(a, P("q")): (b, P("p")), (c, P("q")): (b, P("p"))}
+            elif variant == "pin-twice-late":
+                bad = {(a, P("q")): (b, P("p")), (b, P("q")): (c, P("p")), (c, P("q")): (a, P("q"))}
+            else:
+                bad = {(a, P("q")): (b, P("p")), (c, P("p")): (c, P("q"))}
+            raised = False
+            try:
+                L.Solver(structures=list(sts), connections=bad)
+            except Exception:
+                raised = True
+            if not raised:
+                ctx.violation("C16:constructor-accepts", f"Solver(connections=...) accepted an invalid set of connections ({variant})", rep)
+                continue
+            after = [(dict(x.conn_dict), list(x.connected_to)) for x in sts]
+            if after != before:
+                ctx.violation("C16:nonatomic:constructor", f"a rejected Solver(connections=...) ({variant}) left connection entries on the structures", rep)
+                continue
+            s = L.Solver(structures=list(sts), connections={(a, P("q")): (b, P("p")), (b, P("q")): (c, P("p"))})
+            s.map_pins({P("in"): (a, P("p")), P("out"): (c, P("q"))})
+            z = s.solve().get_A("in", "out")
+            if abs(z - 0.5 * 0.25 * 0.125) > 1e-12:
+                ctx.violation("C16:nonatomic:constructor", f"after a rejected constructor the same structures wired correctly give {z}", rep)
+        except Exception as e:  # noqa
+            ctx.violation("C16:nonatomic:constructor", f"after a rejected constructor ({variant}) wiring the same structures correctly raised {type(e).__name__}: {str(e)[:60]}", rep)
     # 4. renamed pins are addressable by the new names (and only by them)
     for variant in ("put", "get_T", "connect"):
         ctx.case(("renamed", variant), tags=["stream:renamed-pins"])
